@@ -291,6 +291,21 @@ func checkC08(c CaseC08, info *Info) *Failure {
 		if !subMultiset(must, gotF) || !subMultiset(gotF, may) {
 			return failf("filter-mismatch", "map %s\n%q sub-keys %q\n got  %v\n must %v\n may  %v", js, what, sp, gotF, must, may)
 		}
+		// the single-value and existence forms agree with the filtered list
+		if c.UsePath && len(c.Steps) > 0 && !(countIndexed(c.Steps) > 0 && hasListInList(c.Map)) {
+			if ex, eerr := mv.Exists(what, sp...); eerr != nil || ex != (len(filtered) > 0) {
+				return failf("filter-mismatch", "map %s: Exists(%q, %q) = %v,%v but ValuesForPath with the same sub-keys yields %d values", js, what, sp, ex, eerr, len(filtered))
+			}
+		} else {
+			v1, v1err := mv.ValueForKey(what, sp...)
+			if len(filtered) == 0 {
+				if v1err == nil {
+					return failf("filter-mismatch", "map %s: ValueForKey(%q, %q) = %s without error although ValuesForKey yields nothing", js, what, sp, canon(v1))
+				}
+			} else if v1err != nil || !memberOf(v1, filtered) {
+				return failf("filter-mismatch", "map %s: ValueForKey(%q, %q) = %s,%v is not among the filtered values %v", js, what, sp, canon(v1), v1err, gotF)
+			}
+		}
 	}
 	// (5) a sub-key argument is parsed under the separator in force at the call, whatever an earlier call saw:
 	// the same argument strings under two separators, interleaved, with the case's own arguments as the first user
